@@ -21,7 +21,8 @@ ASSUMPTIONS = [
     "negative `start`, empty search parts for replace, and empty placeholders {} are not asserted",
     "words/lines are exercised on interior single separators only",
 ]
-ALPHA = list("ab,|.*+()[]\\^$?{}'\"# \t\n/:-_0") + ["é", "日", "ß", "ab", ", ", "||", "\r\n"]
+ALPHA = list("ab,|.*+()[]\\^$?{}'\"# \t\n/:-_0") + ["é", "日", "ß", "ab", ", ", "||", "\r\n",
+                                                          "\ufeff", "\ufeff ", "\xa0", "\u2003", "\x0b", "\x0c", "\x1f", "\u200b", "İ", "ǅ", "ﬁ"]
 SEPS = [",", "|", ".", "*", "+", "(", ")", "[", "]", "\\", "^", "$", "?", "{", "}", " ", ";", "::", "||", ", ", ".*", "a", "\t", "'", "\"", "/", "-"]
 SHARD_TIMEOUT = {"quick": 300, "thorough": 3000}
 
